@@ -73,6 +73,44 @@ for dt in (-0.3, -0.3j):
 sys.exit(1 if worst > 1e-4 else 0)
 '''
 
+INPUT_REPRO = r'''
+# expm_krylov must not modify the start vector it is given (xp.asarray does not copy an ndarray): a caller that re-uses the
+# array gets exp(dt*A)v/|v| from the second call on.  exit 1 = input modified or second call wrong.
+import sys, renormalizer, numpy as np, scipy.linalg
+from renormalizer.lib import expm_krylov
+rng = np.random.default_rng(0); n = 6; bad = 0
+for cplx in (False, True):
+    M = rng.normal(size=(n, n)) + (1j * rng.normal(size=(n, n)) if cplx else 0); H = (M + M.conj().T) / 2
+    v = 3.0 * (rng.normal(size=n) + (1j * rng.normal(size=n) if cplx else 0)); keep = v.copy()
+    ref = scipy.linalg.expm(-0.4 * H) @ keep
+    for call in (1, 2):
+        res, j = expm_krylov(lambda x: H @ x, -0.4, v)
+        err = np.linalg.norm(res - ref) / np.linalg.norm(ref)
+        same = v.tobytes() == keep.tobytes()
+        print("complex=%s call %d: relative error %.3g, start vector unchanged: %s" % (cplx, call, err, same))
+        bad += (err > 1e-4) or not same
+sys.exit(1 if bad else 0)
+'''
+
+ABSTOL_REPRO = r'''
+# The convergence test of expm_krylov is allclose(res, new_res) with NumPy's default ABSOLUTE tolerance 1e-8 applied to the
+# norm-scaled result: for a start vector of norm 1e-9 every pair of iterates is "close", the loop returns at the first
+# comparison (j = 6) whatever the operator, and the result is wrong by O(1) RELATIVE to |v|.  Fixed probe: n = 40,
+# ||A dt|| = 20, dt imaginary, |v| = 1e-9 (the same vector with |v| = 1 is accurate to 1e-9).  exit 1 = relative error > 1e-4.
+import sys, renormalizer, numpy as np, scipy.linalg
+from renormalizer.lib import expm_krylov
+rng = np.random.default_rng(5); n = 40
+M = rng.normal(size=(n, n)) + 1j * rng.normal(size=(n, n)); H = (M + M.conj().T) / 2; H /= np.linalg.norm(H, 2)
+v0 = rng.normal(size=n) + 1j * rng.normal(size=n); v0 /= np.linalg.norm(v0)
+dt = -20j; worst = 0.0
+for nrm in (1.0, 1e-9):
+    v = v0 * nrm
+    res, j = expm_krylov(lambda x: H @ x, dt, v.copy())
+    err = np.linalg.norm(res - scipy.linalg.expm(dt * H) @ v) / nrm
+    print("|v| = %g: iterations %d, error relative to |v| = %.3g" % (nrm, j, err)); worst = max(worst, err)
+sys.exit(1 if worst > 1e-4 else 0)
+'''
+
 EIGH_REPRO = r'''
 # eigh_qn must restore exactly the symmetry-allowed part of the density matrix.  Reference: brute-force element-wise
 # projection (entry (i,j) survives iff both indices carry the same label q and the complementary side offers qntot - q).
@@ -564,6 +602,23 @@ def run(ctx):
         lst = struct_bad + witness_bad
         ctx.violation("svd_qn-structure", "correspondence Model/SvdQn.v vs svd_qn/eigh_qn (gather index sets, dims, factor shapes, labels, sort permutation)",
                       {"mismatches": len(lst), "first": lst[:3]}, found=False)
+    k_inp = [b for b in k_bad if any("start vector passed in was modified" in w or "second call" in w for w in b.get("why", []))]
+    if k_inp:
+        k_bad = [b for b in k_bad if b not in k_inp or len(b.get("why", [])) > sum(1 for w in b["why"] if "start vector passed in was modified" in w or "second call" in w)]
+        rc_i, out_i = common.sh([common.IMPL_PY, "-c", INPUT_REPRO], env=common.impl_env(), cwd="/", timeout=300)
+        ctx.violation("krylov-input-modified", "the Krylov exponential modifies the start vector it is given / gives a different answer when the same array is used again",
+                      {"failing": len(k_inp), "smallest": min(k_inp, key=lambda b: b["case"]["n"]), "repro_output": out_i[-800:]}, found=True,
+                      repro=INPUT_REPRO if rc_i != 0 else GENERIC_REPRO % (json.dumps({"seed": seed, "cases": [min(k_inp, key=lambda b: b["case"]["n"])["case"]]}), os.path.join(impl_script, "c18_krylov.py"),
+                                                                         "r['error'] or not r.get('input_unchanged') or not isinstance(r.get('second_call_err'), float) or r['second_call_err'] > %g" % KRYLOV_TOL))
+    # fixed probe: accuracy relative to |v| for a small-norm start vector (absolute tolerance in the convergence test)
+    rc_a, out_a = common.sh([common.IMPL_PY, "-c", ABSTOL_REPRO], env=common.impl_env(), cwd="/", timeout=300)
+    ctx.notes.append({"small-norm probe (|v| = 1e-9, ||A dt|| = 20)": out_a[-400:]})
+    if rc_a != 0:
+        ctx.violation("krylov-abs-tolerance-small-norm",
+                      "the Krylov exponential misses its relative tolerance for small-norm start vectors: the convergence test allclose(res, new_res) applies the absolute tolerance 1e-8 to the norm-scaled result",
+                      {"probe": "n = 40, ||A dt|| = 20, dt = -20j, |v| = 1e-9 vs |v| = 1", "output": out_a[-600:],
+                       "minimal_patch": "xp.allclose(res, new_res, atol=1e-8 * nrmv)  (tolerances relative to the norm of the start vector)"},
+                      found=True, repro=ABSTOL_REPRO)
     if k_bad:
         mini = min(k_bad, key=lambda b: b["case"]["n"])
         ctx.violation("krylov-accuracy", "Krylov exponential vs dense reference / Lanczos relations on the real code",
